@@ -298,6 +298,11 @@ fn sequences() -> Vec<String> {
         "s = \"\u{e9}\"",
         "// caf\u{e9} \u{20ac}",
         "u = \"\u{1f600}\" // \u{e9}",
+        // line-break characters inside a string literal before a gap (lines counted from the text and lines
+        // counted by the parser differ from here on)
+        "m = \"x\r\ny\"",
+        "n = \"x\ny\\\"",
+        "o = \"a\rb\" // c",
     ];
     let mut out = vec![];
     for (i, s1) in stmts.iter().enumerate() {
